@@ -36,6 +36,7 @@ fn run_case(fields: &[&str]) -> String {
         "PROG" => runs::prog_case(fields),
         "MULTI" => runs::multi_case(fields),
         "DUMP" => runs::dump_case(fields),
+        "DEPTH" => runs::depth_case(fields),
         s => format!("UNKNOWN-SUITE {}", s),
     }
 }
